@@ -79,7 +79,7 @@ func (m c10) Run(ctx *core.Ctx) {
 	ctx.Begin(cs)
 	m.Exec(ctx, cs)
 
-	nd := split(tierN(ctx.Tier, 3_000, 60_000), ctx.Shard, ctx.NShards)
+	nd := split(tierN(ctx.Tier, 10_000, 60_000), ctx.Shard, ctx.NShards)
 	for i := int64(0); i < nd; i++ {
 		k := 1 + ctx.Rng.IntN(4)
 		ops := make([]core.Op, k)
@@ -99,7 +99,7 @@ func (m c10) Run(ctx *core.Ctx) {
 		ctx.Begin(cs)
 		m.Exec(ctx, cs)
 	}
-	ns := split(tierN(ctx.Tier, 300_000, 30_000_000), ctx.Shard, ctx.NShards)
+	ns := split(tierN(ctx.Tier, 800_000, 30_000_000), ctx.Shard, ctx.NShards)
 	for i := int64(0); i < ns; i++ {
 		var ops []core.Op
 		if ctx.Rng.IntN(3) == 0 { // derived set
